@@ -22,6 +22,19 @@ def generate(rng, tier):
             dy[len(dy) // 2] = float("nan") if i % 24 == 5 else float("inf")
             c["dy"] = dy
             c["desc"]["dy"] = "nonfinite entries"
+    for i, c in enumerate(cases):
+        if i % 12 == 9 and len(c["xin"]) >= 3:
+            # a window far from the origin compared with its spacing (|x| / dx ~ 1e7-1e8): the panel widths are still exact differences
+            x0, h = (5000.0, 1e-4) if (i // 12) % 2 == 0 else (1.0e6, 1e-2)
+            c["xin"] = [x0 + j * h for j in range(len(c["xin"]))]
+            c["xout"] = [0.01 + 0.37 * j for j in range(len(c["xout"]))]
+            c["int_dtype"] = [False, c["int_dtype"][1], False]
+            c["desc"]["grid"] = "far from the origin"
+        if i % 12 == 2 and len(c["xin"]) >= 3 and c["dy"] is None:
+            # a dead sample (NaN) in the data and no uncertainties given: the returned uncertainty is still zero
+            c["yin"] = list(c["yin"])
+            c["yin"][len(c["yin"]) // 2] = float("nan")
+            c["desc"]["data"] = str(c["desc"]["data"]) + "+nan sample"
     return cases
 
 
@@ -39,6 +52,10 @@ def oracle(pystog, case, res):
     yo = res["yout"]
     if len(yo) != len(xo):
         return "output length differs from the output grid"
+    if case["dy"] is None and any(v != 0 for v in res["eout"]):
+        return "no uncertainties were given but the returned uncertainty is not zero: %r" % res["eout"][:3]
+    if any(v != v for v in y):      # a NaN sample: the value is NaN wherever that sample has weight; nothing further to compare
+        return None
     for xp, v in zip(xo, yo):
         want, mag = F.trapz_sine(x, y, xp)
         if abs(v - want) > 1e-9 * mag + 1e-300:
